@@ -67,6 +67,10 @@ func unignoreRules(ignoredRules *ignoredRules, rules []Rule) {
 
 func parseIgnoreComment(comment string) (string, []Rule) {
 	body := strings.TrimLeft(comment, "#@*/ ")
+	if strings.HasPrefix(comment, "/*") {
+		// a block comment carries its terminator: "/* falco-ignore */"
+		body = strings.TrimSuffix(body, "*/")
+	}
 	ignoreType, body, _ := strings.Cut(body, " ")
 
 	if supported, ok := supportedIgnoreTypes[ignoreType]; !ok || !supported {
